@@ -9,7 +9,7 @@ from .c11 import make_matrix, tol_of
 
 ID = "C12"
 LEVEL = "proof"
-PROPS_MODULE = "SymmModel.Props.C12"
+PROPS_MODULE = "SymmModel.Props.C12All"
 THEOREMS = [
     "SymmModel.C12.matrix_sector_injective",
     "SymmModel.C12.column_keyed_tables_never_overwrite",
@@ -20,10 +20,13 @@ THEOREMS = [
     "SymmModel.C12.norm_sq_blocks",
     "SymmModel.C12.norm_sq_blocks_valid",
     "SymmModel.C12.norm_sq_gauge",
-    "SymmModel.C12.norm_sq_phaseSync"
+    "SymmModel.C12.norm_sq_phaseSync",
+    "SymmModel.C08.norm_sq_eq_dense",
+    "SymmModel.C08.norm_sq_eq_dense_of_valid",
+    "SymmModel.C08.sum_locateAll_reindex"
 ]
-LEAN_FILES = ["SymmModel.Props.C12", "SymmModel.Proofs.LinalgLemmas", "SymmModel.Proofs.LinalgFactors", "SymmModel.Proofs.LinalgDense", "SymmModel.Proofs.LinalgSolve"]
-PLANNED = ["norm_sq_eq_dense (sum over dense positions)", "solve_dense", "cited, not proved: the spectrum of a direct sum is the union of the summands' spectra"]
+LEAN_FILES = ["SymmModel.Props.C12", "SymmModel.Proofs.LinalgLemmas", "SymmModel.Proofs.LinalgFactors", "SymmModel.Proofs.LinalgDense", "SymmModel.Proofs.LinalgSolve", "SymmModel.Props.C12All", "SymmModel.Props.C08b", "SymmModel.Proofs.DenseMore"]
+PLANNED = ["solve_dense", "cited, not proved: the spectrum of a direct sum is the union of the summands' spectra"]
 RULE = ("random abelian matrices (all symmetries, dualness, charges, block shapes, sparse, real/complex) and "
         "fermionic ones for singular values and norm: singular values as a multiset vs numpy's SVD of an independent "
         "densification (tolerance 1e-9 relative; matrices with exactly known integer singular values included), "
